@@ -40,3 +40,4 @@ func Yield(tag string)             {}
 func Quiesce()                     {}
 func Threads()                     {}
 func SetClock(sec, nsec, stepNs int64) {}
+func ClockYields(on bool)          {}
